@@ -44,6 +44,15 @@ TYPE_CELLS = ["text", "integer", "decimal", "date", "time", "dateTime", "note", 
 PARAM = {"image": ("max-pixels=640", {"orx:max-pixels": "640"}), "audio": ("quality=low", {"odk:quality": "low"}),
          "geopoint": ("allow-mock-accuracy=true", {"odk:allow-mock-accuracy": "true"}),
          "range": ("start=0.5 end=2 step=0.5", {"type": "decimal"})}
+# further parameter spellings per type (index 0 is PARAM[type]): decimal anywhere among start/end/step makes a range decimal
+PARAM_MORE = {"range": [("start=0.5 end=9.5 step=1", {"type": "decimal"}), ("step=0.5", {"type": "decimal"}), ("start=1 end=5 step=1", {}),
+                        ("end=2.5", {"type": "decimal"}), ("start=1.5 end=5", {"type": "decimal"}), ("step=2 start=0.5", {"type": "decimal"})],
+              "image": [("max-pixels=320 app=com.ex.a", {"orx:max-pixels": "320"})],
+              "geopoint": [("capture-accuracy=5 warning-accuracy=9", {})]}
+
+
+def param_of(base, pv):
+    return PARAM[base] if not pv else PARAM_MORE[base][pv - 1]
 # column id -> [(header spelling, bind attribute)]
 COLS = {
     "relevant": [("relevant", "relevant"), ("relevance", "relevant")],
@@ -86,6 +95,10 @@ def expand(block, tier):
                 ais = (vi % 2,) if tier == "quick" else (0, 1)
                 for ai in ais:
                     yield {"ty": ti, "ctx": ctx, "cols": list(sub), "v": vi, "a": ai, "o": (vi + ai) % (r + 2)}
+            if "param" in sub and r <= 2 and ty.split()[0] in PARAM_MORE:
+                for pv in range(1, len(PARAM_MORE[ty.split()[0]]) + 1):
+                    for vi in (0, 5):
+                        yield {"ty": ti, "ctx": ctx, "cols": list(sub), "v": vi, "a": 0, "o": vi % (r + 2), "pv": pv}
 
 
 def required_outcomes(tier):
@@ -100,7 +113,7 @@ def build(case):
     for c in case["cols"]:
         hdr, attr = COLS[c][case["a"]]
         if c == "param":
-            cells.append((hdr, PARAM[base][0], None, c))
+            cells.append((hdr, param_of(base, case.get("pv"))[0], None, c))
         elif c in ("constraint_message", "required_message", "noapp"):
             cells.append((hdr, "msg " + val, attr, c))
         elif c == "cmsg_fr":
@@ -156,7 +169,7 @@ def expected_bind(case, cells):
             e["jr:preloadParams"] = t["params"]
     for hdr, v, attr, c in cells:
         if c == "param":
-            e.update(PARAM[base][1])
+            e.update(param_of(base, case.get("pv"))[1])
         elif c == "cmsg_fr":
             pass
         else:
